@@ -130,7 +130,8 @@ def r1_pairing(P, rep, ctx):
         m = M.match("StoredMetadata(uuid=__u, schema=__s, node=__n)", f.xe(b["__o"]))
         okr = m is not None and f.x(m["__u"]) == f"{LINKS}.fresh_uuid()" and f.x(m["__s"]) == sref and len(spath) == 1 and f.x(m["__n"]) == f"self._mc.__wrapped__[{next(iter(spath))}]"
         rep.check(okr, "C06.R1", fi.qual, "the registered record carries the object's uuid, schema and node", fi.loc(c), construct="registered object", message=f"_set_raw registers {f.x(b['__o'])[:120]}")
-    fu_calls = [c for c in local_calls(fi.node) if M.match(f"{LINKS}.fresh_uuid()", c) is not None]
+    # evaluations of fresh_uuid() (the call as written, its receiver possibly a local alias of the links object)
+    fu_calls = [c for n_ in g.nodes for c in g.calls(n_.idx) if call_attr(c) == "fresh_uuid" and not c.args and f.x_at(n_.idx, c.func.value) == LINKS]
     rep.check(len(fu_calls) == 1 and len(spath) == 1 and f"{LINKS}.fresh_uuid()" in next(iter(spath)), "C06.R1", fi.qual, "a fresh (unused) uuid is reserved for the object", fi.loc(), construct="fresh uuid", message="_set_raw does not reserve a fresh uuid from the TOC")
     fu = F(ctx, P.func(f"{I}.TOCLinks.fresh_uuid"))
     rets = [(i, v) for i, v in fu.returns() if v is not None]
